@@ -269,8 +269,9 @@ def judge(H, net, rules, used=None):
 
 
 def gen_small(tier, seed):
-    """quick: the unit-coefficient networks, the textbook ones and 1 in 8 of the others (by a hash of the network); thorough: the whole family"""
-    for s in gen(tier, seed):
+    """quick: the unit-coefficient networks, the textbook ones and 1 in 8 of the others (by a hash of the network);
+    thorough: every network of the quick family (one per species-permutation class, textbook, reverse pairs)"""
+    for s in gen("quick", seed):
         if tier != "quick" or "2" not in s or zlib.crc32(s.encode()) % 8 == 0:
             yield s
 
@@ -349,8 +350,8 @@ def subchecks(tier, seed):
 
     return [
         Sub("networks", gen, check, key=lambda c: c, rule=RULE[tier]),
-        Sub("isolated_species", gen_small, check_isolated, key=lambda c: c, rule="every unit-coefficient and textbook network and 1 in 8 of the others (thorough: all), every species in turn taken out of all reactions with the left-behind species kept registered: one row per registered species, all clauses re-judged"),
-        Sub("bipartite_views", gen_small, check_views, key=lambda c: c, rule="every unit-coefficient and textbook network and 1 in 8 of the others (thorough: all) handed to the analysis as a bipartite graph (string and integer ids): as exported, inserted in the opposite order, every coefficient halved (matrix = 0.5 x S; rank, kernel dimensions, verdicts unchanged)"),
+        Sub("isolated_species", gen_small, check_isolated, key=lambda c: c, rule="every unit-coefficient and textbook network and 1 in 8 of the others (thorough: the whole quick family), every species in turn taken out of all reactions with the left-behind species kept registered: one row per registered species, all clauses re-judged"),
+        Sub("bipartite_views", gen_small, check_views, key=lambda c: c, rule="every unit-coefficient and textbook network and 1 in 8 of the others (thorough: the whole quick family) handed to the analysis as a bipartite graph (string and integer ids): as exported, inserted in the opposite order, every coefficient halved (matrix = 0.5 x S; rank, kernel dimensions, verdicts unchanged)"),
         Sub("edited", lambda t, s: el.gen_edits(t), check_edit, key=lambda c: f"{c['net']} / {c['edit']}", rule="analyse, edit in place (replace a reaction under the same id / remove a species), analyse again; all such edits of every 2-reaction unit-coefficient network up to permutation (quick: 1 in 4 of the replacements)"),
     ]
 
